@@ -29,8 +29,15 @@ OuterT(ho, co, hi, ci, hu) ==
 OuterFwd(ho, hi) ==
   <<"dc", "Outer", << N, <<"inner", <<"fwd", "Inner", InnerT(hi, FALSE)>>, <<"req">>, <<>> >>,
                       <<"items", <<"list", <<"fwd", "Inner", InnerT(hi, FALSE)>> >>, <<"req">>, <<>> >> >>, Cfg(ho, FALSE)>>
+\* inheritance x hooks: Aud(Rec) adds no field but declares hooks Rec lacks; both are PLAIN dataclasses compiled on demand
+\* by the holder, Rec first
+RecT == <<"dc", "Rec", <<N>>, << <<"mixin", "plain">> >> >>
+AudT(h) == <<"dc", "Aud", <<N>>, << <<"mixin", "plain">>, <<"bases", <<RecT>> >> >> \o Cfg(h, FALSE)>>
+MsgT(h) == <<"dc", "Msg", << N, <<"plain", RecT, <<"req">>, <<>> >>, <<"audited", <<"list", AudT(h)>>, <<"req">>, <<>> >>,
+                             <<"one", <<"opt", AudT(h)>>, <<"val", None>>, <<>> >> >>, <<>> >>
 Outers == { OuterT(ho, co, hi, ci, hu) : ho \in HookSets, co \in BOOLEAN, hi \in HookSets, ci \in BOOLEAN, hu \in { {}, {"pre_ser", "post_ser", "pre_deser", "post_deser"} } }
 Shapes == Outers \cup { OuterFwd(ho, hi) : ho \in HookSets, hi \in HookSets }
+          \cup { MsgT(h) : h \in HookSets }
           \cup { <<"list", OuterT(h, FALSE, h, FALSE, h)>> : h \in HookSets }
           \cup { <<"union", <<AT(h), BT(h)>> >> : h \in HookSets }
           \cup { <<"dict", <<"str">>, <<"opt", InnerT(h, FALSE)>> >> : h \in HookSets }
@@ -62,7 +69,8 @@ OV(n, u, o) == <<"obj", "Outer", <<I(n), In(n + 1), L(<<In(n + 2), In(n + 3)>>),
 UA(n) == <<"obj", "A", <<I(n), I(7)>> >>
 UB(n) == <<"obj", "B", <<I(n), S("b")>> >>
 ValuesOf(S_) ==
-  CASE S_[1] = "dc" /\ Len(S_[3]) = 3 -> { <<"obj", "Outer", <<I(100), In(101), L(<<In(102), In(103)>>)>> >> }
+  CASE S_[1] = "dc" /\ S_[2] = "Msg" -> { <<"obj", "Msg", <<I(100), <<"obj", "Rec", <<I(101)>> >>, L(<< <<"obj", "Aud", <<I(102)>> >>, <<"obj", "Aud", <<I(103)>> >> >>), <<"obj", "Aud", <<I(104)>> >> >> >> }
+    [] S_[1] = "dc" /\ Len(S_[3]) = 3 -> { <<"obj", "Outer", <<I(100), In(101), L(<<In(102), In(103)>>)>> >> }
     [] S_[1] = "dc" -> { OV(100, UA(150), None), OV(200, UB(250), In(204)) }
     [] S_[1] = "list" -> { L(<<OV(100, UA(150), None), OV(300, UB(350), In(304))>>), L(<<>>) }
     [] S_[1] = "union" -> { UA(10), UB(20) }
